@@ -43,6 +43,7 @@ class Interp(Engine):
         self.cur_loops = extract.loops_of(fs.node)
         where = "%s[%s]" % (contract.target, label)
         config = config or {}
+        self.entry_cfg = config
 
         def thunk():
             self.fresh_ctr = 0
@@ -781,7 +782,7 @@ class Interp(Engine):
                 return getattr(base, name)
             except AttributeError:
                 raise PyRaise(AttributeError, name, node)
-        if isinstance(base, (HList, HSymList, HSetList, HIter, HMap, SSeq, SSet)):
+        if isinstance(base, (HList, HSymList, HSetList, HIter, HMap, SSeq, SSet, BinStr)):
             return BoundMethod(base, name)
         if isinstance(base, SEnum):
             return base.map(lambda t: getattr(t, name)).collapse()
@@ -1250,6 +1251,17 @@ class Interp(Engine):
             if name == "items":
                 return HList([(k, v) for k, v in dict.items(recv)])
             return getattr(dict, name)(recv, *args, **kwargs)
+        if isinstance(recv, BinStr):
+            if name == "count" and args == ["1"]:
+                xe = _ie(recv.x)
+                for bits in (4, 8, 16, 32):
+                    if self.valid(z3.And(xe >= 0, xe < (1 << bits))):
+                        tot = z3.IntVal(0)
+                        for b in range(bits):
+                            tot = tot + (xe / (1 << b)) % 2
+                        return SInt(z3.simplify(tot))
+                raise Unsupported("bin(x).count('1') of an operand that is not provably below 2**32")
+            raise Unsupported("method %s on bin() of a symbolic value" % name)
         if isinstance(recv, SSeq):
             if name == "decode":
                 return Opaque("decoded-text")
@@ -1259,6 +1271,12 @@ class Interp(Engine):
 
 class _LocalDict(dict):
     _pyvc_local = True
+
+
+class BinStr(object):
+    """bin(x) of a symbolic non-negative x; only .count("1") (population count) is modelled"""
+    def __init__(self, x):
+        self.x = x
 
 
 def _hashable(t):
@@ -1716,8 +1734,17 @@ def _m_text(fn):
     return m
 
 
-for _fn in (repr, str, hex, format, ascii, oct, bin):
+for _fn in (repr, str, hex, format, ascii, oct):
     _BUILTIN_MODELS[_fn] = _m_text(_fn)
+
+
+@model(bin)
+def _m_bin(self, args, kwargs, node, f):
+    if isinstance(args[0], (SInt, SBool)):
+        return BinStr(args[0])
+    if _deep_sym(args[0]):
+        return Opaque("bin")
+    return bin(args[0])
 
 
 @model(_struct.unpack)
